@@ -2,6 +2,7 @@
    printed by the audit step of bin/check (Print Assumptions per theorem). *)
 From Coq Require Import String Ascii List Bool Arith NArith.
 From SV Require Import C09.Syntax C09.Model C09.Spec C09.ProofsTop C09.ProofsOptions C09.ProofsAllowed C09.ProofsDup C09.ProofsIds C09.Unfold C09.Recursion C09.RecursionProofs.
+From SV Require Import C09.ScopeSpec C09.ProofsScope C09.ProofsScopeBridge.
 Import ListNotations.
 Open Scope string_scope.
 
@@ -14,14 +15,15 @@ Open Scope string_scope.
    assignment-target rules, the 11 argument-list rules (order, duplicates, the 255
    limits), the 8 parameter-list rules (order of star, double-star and default
    parameters, bare star, duplicate parameters).
-   MISSING: the same equivalence for RUndefined, RSetUnsupported, RReassign and
-   RLoadReassign.  These depend on the block table and on lookupLexical's
-   memoisation (one report per name and top-level block); they are modelled
-   executable in Model.v and tied to the code by the correspondence check (exact
-   error lists) and the scoping oracle Spec.scope_viol on every run; what is
-   proved about them: scoping_errors_at_identifiers_partial (sound positions) and
+   ALSO PROVED: the rule RUndefined, against the declarative scoping
+   specification of ScopeSpec.v: undefined_sound_complete below.
+   MISSING (still only modelled executable in Model.v and checked on every run by
+   the exact-list correspondence and the oracle Spec.scope_viol): the same
+   equivalence for RSetUnsupported, RReassign and RLoadReassign.  What is proved
+   about them: scoping_errors_at_identifiers_partial (sound positions) and
    option_on_never_rejects.  Consequently `errors = [] <-> no rule broken` is
-   proved in the direction accepted -> no violation (of the proved rules). *)
+   proved in the direction accepted -> no violation (of the proved rules and of
+   RUndefined: accepted_implies_no_undefined). *)
 Theorem resolver_sound_complete_partial :
   forall (o : options) (W : world) (p : program) (r : rule) (n : N),
     scoping_rule r = false ->
@@ -88,6 +90,91 @@ Theorem scoping_errors_at_identifiers_partial :
     (In (RSetUnsupported, n) (resolve o W p) -> In (n, "set") (ids_stmts p) /\ o_set o = false).
 Proof. exact scoping_positions_lemma. Qed.
 
+(* ---- The scoping rule "undefined name" (RUndefined), for ALL programs of
+   Syntax.v and ALL option vectors.  ScopeSpec.uses_prog lists every identifier
+   USE with the binding sets of the function / comprehension blocks that enclose
+   it (a block binds a name if it binds it anywhere in its body) and, for a use
+   at file level under GlobalReassign, the file-level names bound so far;
+   ScopeSpec.undefined_uses keeps the uses that are bound nowhere visible: by no
+   enclosing block, by no file-level binding of the module (anywhere in the
+   file; so far, under GlobalReassign), not predeclared, not universal.  The
+   resolver model (use / useToplevel over the block table during the walk,
+   lookupLexical with its memoisation in the end-of-module pass) agrees with it:
+   (1) sound: every "undefined" report is at an undefined use;
+   (2) complete up to the memoisation: for every undefined use there is a report
+       at an undefined use of the SAME NAME (lookupLexical memoises the failed
+       lookup in the blocks it walked through, so later uses of that name inside
+       the same tree of blocks are not reported again: ex_memoised_once);
+   (3) exact outside blocks: an undefined use that is in no function or
+       comprehension block is reported at its own position, every time.
+   The naive statement "reported at n <-> undefined at n" is false for the code
+   as it is (and for the real resolver: `def f(): return x + x` reports x once);
+   it is not what the property asks: a program with an undefined name is
+   rejected (undefined_rejects_iff).
+   Spec.scope_viol (the executable oracle of the check) lists the same uses on
+   regular programs; the two corners where it differs from the resolver are
+   stated in ex_oracle_corners. *)
+Theorem undefined_sound_complete :
+  forall (o : options) (W : world) (p : program),
+    (forall n, In (RUndefined, n) (resolve o W p) -> exists u, In u (undefined_uses o W p) /\ s_n u = n) /\
+    (forall u, In u (undefined_uses o W p) ->
+       exists u', In u' (undefined_uses o W p) /\ s_x u' = s_x u /\ In (RUndefined, s_n u') (resolve o W p)) /\
+    (forall u, In u (undefined_uses o W p) -> s_rel u = [] \/ s_fl u <> None ->
+       In (RUndefined, s_n u) (resolve o W p)).
+Proof. exact undefined_lemma. Qed.
+
+(* a program is rejected for an undefined name exactly when it has an undefined use *)
+Theorem undefined_rejects_iff :
+  forall (o : options) (W : world) (p : program),
+    (exists n, In (RUndefined, n) (resolve o W p)) <-> undefined_uses o W p <> [].
+Proof. exact undefined_rejects_lemma. Qed.
+
+Theorem accepted_implies_no_undefined :
+  forall (o : options) (W : world) (p : program), resolve o W p = [] -> undefined_uses o W p = [].
+Proof. exact accepted_no_undefined_lemma. Qed.
+
+(* The executable oracle of the check, Spec.scope_viol, names exactly these uses on
+   every REGULAR program (ScopeSpec.regular: no parameter list with a superfluous
+   * or **, and -- under GlobalReassign -- no file-level tuple target with a use
+   inside; both corners are in ex_oracle_corners) ... *)
+Theorem scope_oracle_agrees_on_regular :
+  forall (o : options) (W : world) (p : program), regular o p = true ->
+    forall n, In (RUndefined, n) (scope_viol o W p) <-> exists u, In u (undefined_uses o W p) /\ s_n u = n.
+Proof. exact scope_viol_bridge. Qed.
+
+(* ... so that what the check evaluates on every run (Spec.spec_agrees: every
+   "undefined" report is in scope_viol, and there is a report iff scope_viol has
+   one) is a theorem about the model on regular programs. *)
+Theorem undefined_vs_oracle :
+  forall (o : options) (W : world) (p : program), regular o p = true ->
+    (forall n, In (RUndefined, n) (resolve o W p) -> In (RUndefined, n) (scope_viol o W p)) /\
+    ((exists n, In (RUndefined, n) (scope_viol o W p)) -> exists n, In (RUndefined, n) (resolve o W p)).
+Proof. exact undefined_vs_oracle_lemma. Qed.
+
+(* ---- The rebinding rules, against the oracle Spec.scope_viol itself (its file-level part,
+   t_bind / t_load threaded through the module in execution order), for ALL programs and options.
+   RReassign: a second binding of a file-level name (assignment, def, for target; load under
+   LoadBindsGlobally) with GlobalReassign off is reported exactly where the specification says. *)
+Theorem reassign_sound_complete :
+  forall (o : options) (W : world) (p : program) (n : N),
+    In (RReassign, n) (resolve o W p) <-> In (RReassign, n) (scope_viol o W p).
+Proof. exact reassign_lemma. Qed.
+
+(* RLoadReassign: every rebinding by a load the specification names is reported, and every report
+   is one of those or sits at an item of a load statement INSIDE A FUNCTION (which is an error by
+   itself, RLoadInFunction; the resolver binds such names in the function block and may report a
+   rebinding there, about which the specification is silent: ex_rebinding).  FULL STATEMENT
+   (load_reassign_sound_complete): the equivalence for all programs; proved here for the programs
+   without a load statement inside a function, and as a two-sided bound for the others. *)
+Theorem load_reassign_sound_complete_partial :
+  forall (o : options) (W : world) (p : program) (n : N),
+    (In (RLoadReassign, n) (scope_viol o W p) -> In (RLoadReassign, n) (resolve o W p)) /\
+    (In (RLoadReassign, n) (resolve o W p) ->
+       In (RLoadReassign, n) (scope_viol o W p) \/ In n (top_fn_loads_stmts p)) /\
+    (top_fn_loads_stmts p = [] ->
+       (In (RLoadReassign, n) (resolve o W p) <-> In (RLoadReassign, n) (scope_viol o W p))).
+Proof. exact load_reassign_partial_lemma. Qed.
+
 (* A program the resolver rejects performs no effect: the pipeline
    (ExecFileOptions: parse, resolve, and only then compile and run) returns the
    errors and runs nothing; in particular any violation of a proved rule, at any
@@ -151,6 +238,87 @@ Example ex_resolve :
   /\ scoping_rule RBranchNotInLoop = false
   /\ resolve all_off ex_W ex_prog <> [].
 Proof. repeat split; try (vm_compute; reflexivity). vm_compute. discriminate. Qed.
+
+(* ---- scoping examples ----
+    def f(p):                    1
+      log(a, p, q)               2   a: local, used before its binding; q: undefined
+      a = g1                     3   g1: global bound later in the file (f is defined before the binding)
+      return lambda: a + q       4   a: free; q: undefined again, inside the same tree of blocks
+    [y + z for y in len]         5   y: comprehension variable; z: undefined;
+                                     len: the global bound at line 6 (a predeclared/universal name shadowed later)
+    len = 1                      6
+    g1 = len                     7
+    w                            8   undefined at file level
+    w                            9   undefined at file level again: reported again *)
+Definition ex_scope : program :=
+  SCons (SDef 1001 1005 "f" (PId 1007 "p" PNil)
+    (SCons (SExpr (ECall 2004 (EId 2001 "log") (APos 2005 (EId 2005 "a") (APos 2008 (EId 2008 "p") (APos 2011 (EId 2011 "q") ANil)))))
+    (SCons (SAssign false (LId 3001 "a") (EId 3005 "g1"))
+    (SCons (SReturn 4001 (Some (ELambda 4008 PNil (EOp (ECons (EId 4016 "a") (ECons (EId 4020 "q") ENil)))))) SNil))))
+  (SCons (SExpr (EComp 5001 (EId 5016 "len") (LId 5012 "y") CNil (EOp (ECons (EId 5002 "y") (ECons (EId 5006 "z") ENil)))))
+  (SCons (SAssign false (LId 6001 "len") ELit)
+  (SCons (SAssign false (LId 7001 "g1") (EId 7006 "len"))
+  (SCons (SExpr (EId 8001 "w"))
+  (SCons (SExpr (EId 9001 "w")) SNil))))).
+Definition gr_on : options :=
+  {| o_set := false; o_while := false; o_toplevel_control := false; o_global_reassign := true;
+     o_load_binds_globally := false; o_recursion := false |}.
+
+Example ex_scope_regular : regular all_off ex_scope = true /\ regular gr_on ex_scope = true.
+Proof. split; vm_compute; reflexivity. Qed.
+
+Example ex_scope_undefined :
+  map (fun u => (s_n u, s_x u, s_rel u)) (undefined_uses all_off ex_W ex_scope)
+  = [(2011%N, "q", [["p"; "a"]]); (4020%N, "q", [[]; ["p"; "a"]]); (5006%N, "z", [["y"]]); (8001%N, "w", []); (9001%N, "w", [])]
+  /\ resolve all_off ex_W ex_scope = [(RUndefined, 4020%N); (RUndefined, 5006%N); (RUndefined, 8001%N); (RUndefined, 9001%N)]
+  /\ scope_viol all_off ex_W ex_scope
+     = [(RUndefined, 2011%N); (RUndefined, 4020%N); (RUndefined, 5006%N); (RUndefined, 8001%N); (RUndefined, 9001%N)].
+Proof. repeat split; vm_compute; reflexivity. Qed.
+
+(* under GlobalReassign the file-level uses are resolved at once against what is bound so far
+   (line 5: len is still the universal name; lines 8, 9 see f, len, g1) *)
+Example ex_scope_global_reassign :
+  resolve gr_on ex_W ex_scope = [(RUndefined, 8001%N); (RUndefined, 9001%N); (RUndefined, 4020%N); (RUndefined, 5006%N)]
+  /\ map (fun u => (s_n u, s_fl u)) (filter (fun u => match s_fl u with Some _ => true | None => false end) (uses_prog gr_on ex_scope))
+     = [(5016%N, Some ["f"]); (7006%N, Some ["f"; "len"]); (8001%N, Some ["f"; "len"; "g1"]); (9001%N, Some ["f"; "len"; "g1"])].
+Proof. split; vm_compute; reflexivity. Qed.
+
+(* def f(): return x + x  -- both uses are undefined, the resolver reports the first one only *)
+Example ex_memoised_once :
+  let p := SCons (SDef 1 2 "f" PNil (SCons (SReturn 7 (Some (EOp (ECons (EId 8 "x") (ECons (EId 9 "x") ENil))))) SNil)) SNil in
+  resolve all_off ex_W p = [(RUndefined, 8%N)] /\ map s_n (undefined_uses all_off ex_W p) = [8%N; 9%N].
+Proof. split; vm_compute; reflexivity. Qed.
+
+(* The two corners where the oracle Spec.scope_viol differs from the resolver (model and real code agree;
+   ScopeSpec follows them):
+   - y = {}; x, y[x] = ..  at file level under GlobalReassign: the elements of a tuple target are bound
+     left to right, the use of x follows its binding (the program runs); the oracle calls x undefined;
+   - def f( *a, *b): return b : the second * is an error and binds nothing, b is reported undefined;
+     the oracle takes b as a parameter. *)
+Example ex_oracle_corners :
+  let p1 := SCons (SAssign false (LId 1 "y") ELit)
+            (SCons (SAssign false (LSeq 2 (LCons (LId 3 "x") (LCons (LExpr (ECons (EId 4 "y") (ECons (EId 5 "x") ENil))) LNil))) ELit) SNil) in
+  let p2 := SCons (SDef 1 2 "f" (PStar 3 (Some (4%N, "a")) (PStar 5 (Some (6%N, "b")) PNil))
+                    (SCons (SReturn 7 (Some (EId 8 "b"))) SNil)) SNil in
+  (resolve gr_on ex_W p1 = [] /\ undefined_uses gr_on ex_W p1 = [] /\ scope_viol gr_on ex_W p1 = [(RUndefined, 5%N)]) /\
+  (resolve all_off ex_W p2 = [(RParMultipleStar, 5%N); (RUndefined, 8%N)] /\
+   map s_n (undefined_uses all_off ex_W p2) = [8%N] /\ scope_viol all_off ex_W p2 = []).
+Proof. repeat split; vm_compute; reflexivity. Qed.
+
+(*  load("m", "a"); load("m", "a"); a = 1; x = 1; x = 2
+    def f(): load("m", "b"); load("m", "b")                                       *)
+Definition ex_rebind : program :=
+  SCons (SLoad 1 [(2, "a", 3, "a")%N]) (SCons (SLoad 4 [(5, "a", 6, "a")%N]) (SCons (SAssign false (LId 7 "a") ELit)
+  (SCons (SAssign false (LId 8 "x") ELit) (SCons (SAssign false (LId 9 "x") ELit)
+  (SCons (SDef 10 11 "f" PNil (SCons (SLoad 12 [(13, "b", 14, "b")%N]) (SCons (SLoad 15 [(16, "b", 17, "b")%N]) SNil))) SNil))))).
+Example ex_rebinding :
+  resolve all_off ex_W ex_rebind
+  = [(RLoadReassign, 6%N); (RReassign, 7%N); (RReassign, 9%N); (RLoadInFunction, 12%N); (RLoadInFunction, 15%N); (RLoadReassign, 17%N)]
+  /\ scope_viol all_off ex_W ex_rebind = [(RLoadReassign, 6%N); (RReassign, 7%N); (RReassign, 9%N)]
+  /\ top_fn_loads_stmts ex_rebind = [14%N; 17%N]
+  /\ resolve gr_on ex_W ex_rebind = [(RLoadInFunction, 12%N); (RLoadInFunction, 15%N)]
+  /\ top_fn_loads_stmts ex_scope = [].
+Proof. repeat split; vm_compute; reflexivity. Qed.
 
 (* f (code 7) calls sorted (a built-in) which calls back a second closure of the same def *)
 Example ex_recursion :
